@@ -331,10 +331,11 @@ type Script struct {
 	funcs   map[string]bool // declared uninterpreted functions
 	usesStrLt bool
 	preFacts  []string
+	oblFact   map[int]bool // indices of facts that are assumed proof obligations (assert-then-assume)
 }
 
 func NewScript() *Script {
-	return &Script{strLits: map[string]string{}, funcs: map[string]bool{}}
+	return &Script{strLits: map[string]string{}, funcs: map[string]bool{}, oblFact: map[int]bool{}}
 }
 
 func (s *Script) Fresh(prefix string, sort Sort) *Term {
@@ -448,6 +449,17 @@ func (s *Script) Render(nfacts int, negGoal string, wantModel bool, forCVC5 bool
 // RenderMode: cex=true drops the quantified prelude axioms and interprets md/dv exactly, which lets the
 // solvers answer sat with a model on obligations that are otherwise quantifier-free.
 func (s *Script) RenderMode(nfacts int, negGoal string, wantModel bool, forCVC5 bool, cex bool) string {
+	return s.render(nfacts, negGoal, wantModel, forCVC5, cex, false)
+}
+
+// RenderCover renders a reachability query; facts that are assumed obligations are left out, so that a
+// failing obligation cannot make the cover fail as well (and a contradiction among the genuine
+// assumptions is still found).
+func (s *Script) RenderCover(nfacts int, goal string) string {
+	return s.render(nfacts, goal, false, false, false, true)
+}
+
+func (s *Script) render(nfacts int, negGoal string, wantModel bool, forCVC5 bool, cex bool, skipObl bool) string {
 	var sb strings.Builder
 	if wantModel {
 		sb.WriteString("(set-option :produce-models true)\n")
@@ -515,7 +527,10 @@ func (s *Script) RenderMode(nfacts int, negGoal string, wantModel bool, forCVC5 
 	if nfacts > len(s.facts) {
 		nfacts = len(s.facts)
 	}
-	for _, f := range s.facts[:nfacts] {
+	for i, f := range s.facts[:nfacts] {
+		if skipObl && s.oblFact[i] {
+			continue
+		}
 		sb.WriteString("(assert ")
 		sb.WriteString(f)
 		sb.WriteString(")\n")
